@@ -86,16 +86,28 @@ def main(argv):
 
     # ---- classify ------------------------------------------------------------------------
     known = findings.load()
-    violations, known_hits, inconclusive = [], [], []
+    violations, known_hits, inconclusive, unreplayed = [], [], [], []
+    failing = [ob for ob in obs if results[ob["id"]]["verdict"] == "fail"]
     for ob in obs:
+        if results[ob["id"]]["verdict"] == "inconclusive":
+            inconclusive.append((ob, results[ob["id"]]))
+    # counterexamples are replayed natively against the real code; at most MAX_REPLAYS of them
+    # (each replay re-runs the solver for the concrete values), the rest is listed as not replayed
+    MAX_REPLAYS = int(os.environ.get("VERIF_MAX_REPLAYS", "3"))
+    # one representative per role first, so that different kinds of failure are all confirmed
+    seen_roles, ordered = set(), []
+    for ob in failing:
+        if ob.get("role") not in seen_roles:
+            seen_roles.add(ob.get("role"))
+            ordered.append(ob)
+    ordered += [ob for ob in failing if ob not in ordered]
+    to_replay, rest = ordered[:MAX_REPLAYS], ordered[MAX_REPLAYS:]
+    def _confirm(ob):
+        return ob, replay.confirm(pid, ob, results[ob["id"]], tier)
+    with cf.ThreadPoolExecutor(max_workers=1) as ex2:   # playback shares one source file: sequential
+        confirmed = list(ex2.map(_confirm, to_replay))
+    for ob, rp in confirmed:
         r = results[ob["id"]]
-        if r["verdict"] == "pass":
-            continue
-        if r["verdict"] == "inconclusive":
-            inconclusive.append((ob, r))
-            continue
-        # fail: obtain a counterexample and replay it natively against the real code
-        rp = replay.confirm(pid, ob, r, tier)
         r["replay"] = rp
         if rp["status"] == "reproduced":
             kf = findings.match(known, pid, ob, r, rp)
@@ -107,6 +119,13 @@ def main(argv):
             r["verdict"] = "inconclusive"
             r["reason"] = "counterexample did not reproduce natively (%s): encoding or stub at fault" % rp.get("detail", "")
             inconclusive.append((ob, r))
+    for ob in rest:
+        r = results[ob["id"]]
+        kf = findings.match(known, pid, ob, r, {"status": "not_replayed"})
+        if kf:
+            known_hits.append((ob, r, kf))
+        else:
+            unreplayed.append((ob, r))
     # engine-level known findings (e.g. C08-M4) are reported by the engine itself
     for ob in obs:
         for kf in results[ob["id"]].get("known_findings", []):
@@ -120,8 +139,12 @@ def main(argv):
     for ob, r, rp in violations:
         print("VIOLATION property=%s replay=%s" % (pid, rp["path"]))
         print("  obligation %s: %s" % (ob["id"], r.get("reason", "")))
+    for ob, r in unreplayed:
+        print("  also failing (counterexample not replayed, replay budget %d): %s: %s" % (MAX_REPLAYS, ob["id"], r.get("reason", "")[:160]))
     if violations:
         return 1
+    if unreplayed:
+        inconclusive += unreplayed
     if inconclusive:
         for ob, r in inconclusive:
             print("INCONCLUSIVE %s: %s (log %s)" % (ob["id"], r.get("reason", ""), r.get("log", "-")))
